@@ -170,6 +170,9 @@ def gen_content(st, case):
             parts.append("\x00")                     # a NUL byte (binary-looking content)
         if rf.random() < 0.03:
             parts.append(rp.choice(["\u00e9", "\u4e2d", "\U0001f600"]))
+        if rf.random() < 0.03:
+            # characters str.splitlines() takes for line boundaries although no file iterator, grep or terminal does
+            parts.append(rp.choice(["\r", "\x0b", "\x0c", "\x1c", "\x1d", "\x1e", "\x85", "\u2028", "\u2029"]) + rp.choice(["", "a", "zz"]))
         line = rp.choice(["", " ", "-"]) .join(parts)
         lines.append("%s ~%d~" % (line, k))           # unique inert marker: exact output -> input attribution
     redact = []
@@ -491,6 +494,14 @@ def run_content(case, world, viols, stats):
             stats["probes"]["filter_sets_whose_first_grep_pattern_has_leading_dash"] = \
                 stats["probes"].get("filter_sets_whose_first_grep_pattern_has_leading_dash", 0) + 1
         sfx = ":nul-in-content" if has_nul else ""
+        if any(len(l.splitlines()) > 1 for l in orig):
+            stats["faults_fired"]["splitlines_boundary_inside_a_line"] = stats["faults_fired"].get("splitlines_boundary_inside_a_line", 0) + 1
+            sfx += ":splitlines-boundary-in-line"
+        if any("\r" in l for l in lines):
+            # a carriage return inside a line: grep (the host pre-filter) does not take it for a line boundary, reading
+            # the text in Python (universal newlines) does
+            stats["faults_fired"]["lone_cr_inside_a_line"] = stats["faults_fired"].get("lone_cr_inside_a_line", 0) + 1
+            sfx = ":lone-cr-in-line"
         # ---------------- P1f host pre-filter of a file (real grep through the real provider)
         hc = HostContext(root=root)
         try:
